@@ -11,6 +11,12 @@ pub trait Fragmentable: Sized {
     fn from_buffer(buf: Bytes) -> Option<Self>;
 }
 
+// a frame is split into at most this many fragments (total and seq are 7 bit wide,
+// and the reassemble bitmap must keep one spare bit above `total`)
+const MAX_FRAGMENTS: usize = 127;
+// largest datagram accepted for reassemble (UDP/QUIC datagrams can not be larger)
+const MAX_DATAGRAM: usize = 65535;
+
 // id:u16 total:u7 offset:u7
 pub struct Fragments<T> {
     timeout: Duration,
@@ -33,24 +39,31 @@ where
         }
     }
 
+    #[cfg(test)]
     pub fn make_fragments(mtu: usize, next_id: &mut u16, thing: T) -> MakeFragments<T::Buffer> {
+        Self::try_make_fragments(mtu, next_id, thing).expect("frame does not fit into fragments")
+    }
+
+    // None if the frame can not be sent with this mtu (mtu too small or too many fragments)
+    pub fn try_make_fragments(
+        mtu: usize,
+        next_id: &mut u16,
+        thing: T,
+    ) -> Option<MakeFragments<T::Buffer>> {
         let buf = thing.as_buffer();
         let id = *next_id;
-        *next_id += 1;
+        *next_id = next_id.wrapping_add(1);
         MakeFragments::new(id, mtu, buf)
     }
 
     pub fn reassemble(&mut self, mut buf: Bytes) -> Option<T> {
-        let mut head = buf.split_to(4);
-        let id = head.get_u16();
-        let total = head.get_u8();
-        let seq = head.get_u8();
+        let (id, total, seq) = split_header(&mut buf)?;
         // tracing::trace!("reassemble id: {} total: {} seq: {}", id, total, seq);
         if total == 1 && seq == 0 {
             T::from_buffer(buf)
         } else if let Entry::Occupied(mut entry) = self.queue.entry(id) {
             let queue = entry.get_mut();
-            if queue.add_fragment(seq, buf) {
+            if queue.add_fragment(total, seq, buf) {
                 let buf = queue.assemble();
                 // tracing::trace!("reassembled {} bytes", buf.len());
                 entry.remove_entry();
@@ -87,18 +100,23 @@ impl<T> MakeFragments<T>
 where
     T: Buf,
 {
-    fn new(id: u16, mtu: usize, buf: T) -> MakeFragments<T> {
-        assert!(mtu > 4);
+    fn new(id: u16, mtu: usize, buf: T) -> Option<MakeFragments<T>> {
+        if mtu <= 4 {
+            return None;
+        }
         let size = mtu - 4;
         let len = buf.remaining();
-        let total = div_ceil(len, size) as u8;
-        MakeFragments {
+        let total = div_ceil(len, size);
+        if total > MAX_FRAGMENTS {
+            return None;
+        }
+        Some(MakeFragments {
             buf,
             mtu,
             id,
-            total,
+            total: total as u8,
             next: 0,
-        }
+        })
     }
 }
 
@@ -128,6 +146,21 @@ struct ReassembleQueue {
     fragments: Vec<Bytes>,
 }
 
+// Split the 4 byte fragment header off a datagram and validate it: (id, total, seq)
+fn split_header(buf: &mut Bytes) -> Option<(u16, u8, u8)> {
+    if buf.len() < 4 || buf.len() > MAX_DATAGRAM {
+        return None;
+    }
+    let mut head = buf.split_to(4);
+    let id = head.get_u16();
+    let total = head.get_u8();
+    let seq = head.get_u8();
+    if total == 0 || total as usize > MAX_FRAGMENTS || seq >= total {
+        return None;
+    }
+    Some((id, total, seq))
+}
+
 impl ReassembleQueue {
     fn new(total: u8, seq: u8, buf: Bytes) -> Self {
         let total = total as usize;
@@ -137,8 +170,12 @@ impl ReassembleQueue {
         fragments[this] = buf;
         Self { bitmap, fragments }
     }
-    fn add_fragment(&mut self, seq: u8, buf: Bytes) -> bool {
+    fn add_fragment(&mut self, total: u8, seq: u8, buf: Bytes) -> bool {
         let this = seq as usize;
+        // ignore fragments that do not belong to this frame
+        if total as usize != self.fragments.len() || this >= self.fragments.len() {
+            return false;
+        }
         if self.bitmap & (1 << this) == 0 {
             self.bitmap |= 1 << this;
             self.fragments[this] = buf;
